@@ -57,6 +57,8 @@ def run(ctx):
             ctx.case("large " + c.line() + " x%d" % k, sample=None)
             if o["status"] == "ok" and o["vis"][3] is not None:
                 eems.tile_twin(ctx, c, o, k)
+    # long category tables and curves (40 .. 1000 entries, unsorted) on vectors and on grids of rank 2 and 3: the shape is kept whatever the length of a list
+    eems.run_stream(ctx, model, eems.long_table_cases(eems._rng2(ctx)), "exec:long-tables:shapes", on_result=orc)
     numeric.focus_search(ctx, model, lambda cmds, f: gen(ctx, cmds, n * f), orc)
     return ctx.finish(
         rule="cases = (data command, parameters, 1-5 inputs of one shape drawn from rank 1-3 shapes incl. length-1 axes); every case "
